@@ -415,12 +415,15 @@ type ValueCase struct {
 
 // Cases flattens φ-nodes: it returns the non-φ values v can take together with the reaching
 // condition of the incoming edge chain (back edges ignored; depth-limited).
-func (r *Reach) Cases(v ssa.Value) []ValueCase {
+func (r *Reach) Cases(v ssa.Value) []ValueCase { return r.CasesStop(v, nil) }
+
+// CasesStop is Cases that does not expand the φ-nodes in stop (e.g. a loop-header φ when looking at loop-carried values).
+func (r *Reach) CasesStop(v ssa.Value, stop map[ssa.Value]bool) []ValueCase {
 	var out []ValueCase
 	var rec func(x ssa.Value, cond DNF, depth int)
 	rec = func(x ssa.Value, cond DNF, depth int) {
 		phi, ok := x.(*ssa.Phi)
-		if !ok || depth > 4 {
+		if !ok || depth > 4 || stop[x] {
 			out = append(out, ValueCase{V: x, Cond: cond})
 			return
 		}
